@@ -1060,7 +1060,14 @@ func (m *Mint) settleProofs(Ys []string, proofs cashu.Proofs) error {
 	m.proofsMu.Lock()
 	defer m.proofsMu.Unlock()
 
-	err := m.db.RemovePendingProofs(Ys)
+	// a state check that saw the payment succeed could have settled the proofs already
+	// (removed them from pending and marked them as spent) while the payment call was returning
+	usedProofs, err := m.db.GetProofsUsed(Ys)
+	if err == nil && len(proofs) > 0 && len(usedProofs) == len(proofs) {
+		return nil
+	}
+
+	err = m.db.RemovePendingProofs(Ys)
 	if err != nil {
 		errmsg := fmt.Sprintf("error removing pending proofs: %v", err)
 		return cashu.BuildCashuError(errmsg, cashu.DBErrCode)
